@@ -150,7 +150,7 @@ func (b *assignmentBuilder) matchStructFieldAndStruct(
 		}
 	}
 
-	return b.structFieldAndStructGettersAndFields(lhs, rhs)
+	return b.structFieldAndStructGettersAndFields(lhs, rhs, additionalArgs)
 }
 
 // matchStructFieldAndStruct matches a struct field on the left-hand side of an assignment
@@ -158,7 +158,7 @@ func (b *assignmentBuilder) matchStructFieldAndStruct(
 // If a match is found, returns an Assignment that represents the field assignment.
 // If no match is found, returns a NoMatchField or SkipField if the field is to be skipped
 // based on the options set in the AssignmentBuilder.
-func (b *assignmentBuilder) structFieldAndStructGettersAndFields(lhs bmodel.Node, rhsStruct bmodel.Node) (gmodel.Assignment, error) {
+func (b *assignmentBuilder) structFieldAndStructGettersAndFields(lhs bmodel.Node, rhsStruct bmodel.Node, additionalArgs []bmodel.Node) (gmodel.Assignment, error) {
 	opts := b.opts
 	methodPosStr := b.fset.Position(b.methodPos)
 	lhsExpr := lhs.AssignExpr()
@@ -201,7 +201,8 @@ func (b *assignmentBuilder) structFieldAndStructGettersAndFields(lhs bmodel.Node
 			if rhs.ObjNullable() {
 				nestStruct.NullCheckExpr = rhs.NullCheckExpr()
 			}
-			nestStruct.Contents, err = b.structToStruct(lhs, rhs, nil)
+			// The additional arguments stay reachable for ":map $n ..." on nested destination paths.
+			nestStruct.Contents, err = b.structToStruct(lhs, rhs, additionalArgs)
 			if err == nil && 0 < len(nestStruct.Contents) {
 				a = nestStruct
 			}
